@@ -145,6 +145,10 @@ class LibMixin:
                 return self.cont_call(t, 'push_back', o, [v])
             if m in ('pop_back', 'clear'):
                 return self.cont_call(t, m, o)
+            if m == 'pop' and not args: return self.cont_call(t, 'pop_back', o)                 # std::stack
+            if m == 'top' and not args: m = 'back'                                             # std::stack
+            if m in ('push', 'emplace') and len(args) == 1 and self.same_c(args[0], t.elem):  # std::stack
+                return self.cont_call(t, 'push_back', o, [self.expr(args[0], rvalue=True)])
             if m == 'reserve':
                 self.dropped['vector::reserve'] += 1
                 return '((void)0)'
@@ -574,6 +578,13 @@ class LibMixin:
         atxt += self.call_args(d, args)
         self.wb = None if not self.wb else self.wb
         rt = self.ret_type(d)
+        if rt.kind == 'opaque' and rt.c in self.opaque and n.get('type', {}).get('desugaredQualType'):
+            # the declared result type is a dependent alias (e.g. iterator::pointer) the type rules cannot resolve: the call
+            # expression itself carries the desugared type
+            try:
+                rt2 = self.ty(n['type']['desugaredQualType'])
+                if rt2.kind != 'opaque' or rt2.c != rt.c: rt = rt2; self.rules['result-type-from-call-expression'] += 1
+            except Unsupported: pass
         if rt.ref and (not rt.const or self.big(rt)) and rt.kind != 'void': rc = rt.c + '*'
         else: rc = rt.c
         proto = '%s %s(%s);' % (rc, cn, ', '.join(ptxt) or 'void')
